@@ -11,6 +11,38 @@ import TsVerif.C08.Concurrency
 > is written without exclusive ownership, no reference-count update is lost, and every shared
 > node is freed exactly once after the last handle goes away.
 
+## Clause map (phrase of the property text → theorems)
+
+Marks: **proved** = kernel-checked statement about the reference-count heap model (`Model.lean`), tied
+to the C code by replaying every real operation on the model and comparing the predicted heap (counts,
+sharing, payloads) with the dump of the real heap, and by the probes of `cunit_c08`; **partial (H)** =
+proved under hypothesis H; **judged only** = no theorem, Lean judge on every real dump; **assumed**.
+
+| # | phrase | theorems | mark |
+|---|---|---|---|
+| 1 | "what is observable through one tree handle changes only through an edit applied to that handle" | `persistence` (c) = `observation_stable`: over ANY history, a handle that is neither edited nor deleted keeps its root and its whole unfolded tree; `observation_defined` / `unfold_total` (the observation exists in every valid acyclic state, so the statement is not empty); `persistence_from_empty` (the hypotheses hold for every family of handles that descends from parses) | proved; "observable" = `unfold` (payload + children, recursively); the payload is abstract (`D` = all node fields), the judge normalises the real dump (drops `ref_count`, address, and one scanner-only bit) |
+| 2 | "editing a copy … never alters it" | `edit_isolated` (every edit, any visited set, incl. clone and inline promotion), `copy_isolated`, `copy_root` | proved |
+| 3 | "using any copy as the old tree of a re-parse … never alters it" | `reparse_isolated`, `rc_invariant_reparse` | **partial (H = the parser's ownership contract)**: a re-parse is an abstract build in which "reuse = retain, everything else is a fresh cell"; that the real parser never WRITES into a reused node (`ts_parser__shift` flag flip, `breakdown_*`, balancing) is not modelled — **judged only** (role / breakdown histories, wave 5/6 seeds) |
+| 4 | "deleting other copies never alters it" | `delete_isolated` (the whole release cascade), `rc_invariant_delete` | proved |
+| 5 | "although structure is shared" | no theorem assumes unshared structure; `decide` examples with a shared cell (`Props.lean`, `Persistence.lean`) | proved (non-vacuity) |
+| 6 | "distinct copies may be edited, re-parsed, queried and deleted concurrently on different threads with the same results as sequentially" | `interleaving_eq_sequential`, `accesses_commute` (Concurrency.lean): every interleaving of two threads' access sequences with independent cross pairs equals "A then B" in final heap and in everything each thread reads; `interleaving_eq_sequential_counts` | **partial (H = independence of the cross pairs)**: that two whole API operations on distinct handles produce independent access sequences follows informally from 7 + 2–4 but is not derived in Lean (needs the operations in small-step form) — **judged only**: 2–16 threads vs sequential, equal results |
+| 7 | "no shared node is written without exclusive ownership" | `writes_exclusive`, `make_mut_result`, `make_mut_never_mutates_shared` (the cell handed to the writer has count 1 and no other reference at all; every pre-existing cell keeps children and payload) | proved for `ts_subtree_make_mut`, the only writer in the model; the other `ref_count == 1` licences (`ts_subtree_compress`, `ts_parser__balance_subtree`) are **judged only** (seed C08-r2); probe `mm` on the real function |
+| 8 | "no reference-count update is lost" | `rc_invariant` (any history: count = number of owners for every id), `no_lost_update_counts`, `interleaving_eq_sequential_counts` | proved; concurrency part **assumed**: `atomic_inc/dec` are atomic and sequentially consistent (probed with 16 threads; memory order tied at token level) |
+| 9 | "every shared node is freed exactly once after the last handle goes away" | `heap_empty_after_last_delete` (no live cell once no handle is left, via `acyclic_invariant`), `persistence` (a) = `reachable_live` (nothing reachable is freed early), `no_dangling_no_garbage`, `freed_never_reused_edit/_release` (a freed id never becomes live again: no confusion of a second free with a new cell) | proved (model); "exactly once" on the real heap **judged**: poisoning allocator aborts on a free of a non-live block, balance 0 at the end |
+| 10 | quantifier: "all histories of copy/edit/re-parse/query/delete over a family of handles descending from one parse, all interleavings … 2..16 threads" | histories: `Op` lists of any length from any valid state / from `State.empty`; query and walk are reads (no `Op`, `read` accesses in Concurrency.lean); threads: 6 | proved for histories; threads see 6 |
+
+## Gaps found when re-reading the statements against the text
+
+* 3, 6 and the second half of 7 are the places where the English says more than the theorems: the
+  parser as a writer, whole operations as access sequences, and the writers other than `make_mut`.  All
+  three are covered by the judge on real runs only.
+* `observation_stable` was conditional on `unfold … = some t` with no proof that such `t` exists; closed
+  in this pass (`unfold_total`, `observation_defined`).  `persistence` assumed `SWF s` without showing
+  it reachable from a parse; closed (`swf_empty`, `persistence_from_empty`).
+* `Send/Sync` declarations of the Rust wrappers and real memory ordering are not modelled (assumed).
+
+## Theorem index by clause (older table)
+
 Statements are about the heap model of `Model.lean` (`State` = cells with counts + tree handles).
 `SWF s` is the reference-count invariant: for **every** id, the stored count (0 for a freed or
 never allocated id) equals the number of references to it — handle roots plus child links of live
